@@ -25,4 +25,33 @@ MUTANTS = [
     ("real-has-complex", ["C03"], A, 'Real = _make_dtype(floats + uints + ints, "Real")', 'Real = _make_dtype(floats + uints + ints + complexes, "Real")'),
     ("torch-repr-split", ["C03"], A, '*_, dtype = repr(obj.dtype).rsplit(".", 1)', '*_, dtype = repr(obj.dtype).split(".", 1)'),
     ("dtype-loop-no-break", ["C03"], A, "                if in_dtypes:\n                    break\n", ""),
+    ("array-no-rollback-false", ["C04"], A, """        else:
+            set_shape_memo(
+                single_memo_bak, variadic_memo_bak, pytree_memo_bak, arg_memo_bak
+            )
+            return check""", """        else:
+            return check"""),
+    ("array-no-rollback-exc", ["C04"], A, """        except BaseException:
+            set_shape_memo(
+                single_memo_bak, variadic_memo_bak, pytree_memo_bak, arg_memo_bak
+            )
+            raise""", """        except BaseException:
+            raise"""),
+    ("array-rollback-exception-only", ["C04"], A, "            check = cls._check_shape(obj, single_memo, variadic_memo, arg_memo)\n        except BaseException:", "            check = cls._check_shape(obj, single_memo, variadic_memo, arg_memo)\n        except Exception:"),
+    ("pytree-no-rollback-false", ["C04"], P, """        else:
+            set_shape_memo(
+                single_memo_bak, variadic_memo_bak, pytree_memo_bak, arg_memo_bak
+            )
+            return False""", """        else:
+            return False"""),
+    ("pytree-no-rollback-exc", ["C04"], P, """        except BaseException:
+            set_shape_memo(
+                single_memo_bak, variadic_memo_bak, pytree_memo_bak, arg_memo_bak
+            )
+            raise""", """        except BaseException:
+            raise"""),
+    ("array-snapshot-alias", ["C04"], A, "single_memo_bak = single_memo.copy()", "single_memo_bak = single_memo"),
+    # ("array-variadic-snapshot-alias": equivalent mutant -- the variadic memo is written last in an array check, nothing can fail after it)
+    ("pytree-struct-snapshot-alias", ["C04"], P, "pytree_memo_bak = pytree_memo.copy()", "pytree_memo_bak = pytree_memo"),
+    ("pytree-single-snapshot-alias", ["C04"], P, "single_memo_bak = single_memo.copy()", "single_memo_bak = single_memo"),
 ]
